@@ -324,6 +324,8 @@ type CWorld struct {
 	D      []delegation.Delegation // by token id
 	idOf   map[string]int          // link string -> token id
 	dummys map[string]int
+	// Pristine: for tokens altered after signing, the genuine token the signature was made for
+	Pristine []delegation.Delegation
 }
 
 // fakeSigner claims one DID and signs with another principal's key (or absentee).
@@ -467,6 +469,17 @@ func (cw *CWorld) issue(t *AToken) (delegation.Delegation, error) {
 		return nil, err
 	}
 	model := *view.Model()
+	if !t.Intact {
+		// the genuine token (what was really signed), kept for history-dependent checks
+		if prt, err := block.Encode(view.Model(), udm.Type(), cbor.Codec, sha256.Hasher); err == nil {
+			if pbs, err := blockstore.NewBlockStore(blockstore.WithBlocksIterator(bs.Iterator())); err == nil {
+				pbs.Put(prt)
+				if pd, err := delegation.NewDelegation(prt, pbs); err == nil {
+					cw.Pristine = append(cw.Pristine, pd)
+				}
+			}
+		}
+	}
 	// final fields
 	model.Aud = cw.P[t.Aud].did.Bytes()
 	model.Exp = t.Exp
@@ -799,6 +812,11 @@ func (cw *CWorld) spineOf(a validator.Authorization[NbMap]) []spineItem {
 func (cw *CWorld) Access(log *runLog) (outcome string, spine []spineItem, flags string) {
 	canIssue, checker, resolveProof, parse, resolveKey, authority := cw.context(log)
 	ctx := validator.NewValidationContext(authority, cw.capability(log), canIssue, checker, resolveProof, parse, resolveKey)
+	// history: the genuine tokens whose signatures the altered ones carry have been seen (and accepted)
+	// by this process before - what an attacker re-addressing a real token relies on
+	for _, p := range cw.Pristine {
+		validator.Validate(p, []delegation.Delegation{p}, ctx)
+	}
 	auth, err := validator.Access(cw.D[cw.A.Inv], ctx)
 	if err != nil {
 		if err.Name() != "Unauthorized" {
